@@ -52,8 +52,13 @@ class _Helper:
         self.defaults = dict(zip(self.params[len(self.params) - len(a.defaults):], a.defaults))
         self.defaults.update({k.arg: d for k, d in zip(a.kwonlyargs, a.kw_defaults)
                               if d is not None})
-        self.body = _strip_doc(fn.body)
         self.static = 'staticmethod' in _decorator_names(fn)
+
+    @property
+    def body(self):
+        # read from the definition each time: the helper's own body may have been normalised
+        # (helpers inlined into it) since this object was made
+        return _strip_doc(self.fn.body)
 
     def usable(self):
         fn = self.fn
